@@ -141,6 +141,11 @@ pub fn exec(tok: &[&str]) -> String {
         "keygen_digest" => crate::keys::op_digest(tok[1].parse().unwrap(), &unhex(tok[2])),
         "sk_fields" => crate::c04::op_sk_fields(tok[1].parse().unwrap(), &parse_ints::<i64>(tok[2]), &parse_ints::<i64>(tok[3]), &parse_ints::<i64>(tok[4])),
         // ---- the tower of NTRUSolve (C04) ---------------------------------------------------------------
+        "karatsuba" => {
+            let (a, b) = (parse_ints::<i64>(tok[1]), parse_ints::<i64>(tok[2]));
+            ints(&pad(vh::karatsuba_i64(&a, &b), a.len() + b.len() - 1))
+        }
+        "reduce_cyc" => ints(&pad(vh::reduce_by_cyclotomic_i64(&parse_ints::<i64>(tok[2]), tok[1].parse().unwrap()), tok[1].parse().unwrap())),
         "ntru_base" => {
             let (a, b): (num::BigInt, num::BigInt) = (tok[1].parse().unwrap(), tok[2].parse().unwrap());
             match vh::ntru_solve(&[a], &[b]) {
